@@ -271,6 +271,25 @@ def cli_flag(ctx, violations):
                                    "compile_exit": rc_comp, "object_bytes": data.hex() if data else None,
                                    "reference_bytes": ref.hex() if ref else None, "run_exit": rc_run, "raw_0xD_run_exit": rc_raw,
                                    "check_output": text[-300:]})
+    # the flag written BEFORE the sub-command (`lace -f stack run FILE`): clap accepts it there, so it must take effect there
+    # (or the command line be refused) - the extension on exactly as when the flag follows the sub-command
+    for pre, on in ((["-f", "stack"], True), (["--features", "stack"], True), (["--features=stack"], True), (["-f", ""], False), (["-f", "heap"], None)):
+        obs = {}
+        for sub, tail in (("check", ["s.asm"]), ("compile", ["s.asm", "pre.lc3"]), ("run", ["s.asm", "--minimal"]), ("run", ["simg.lc3", "--minimal"]),
+                          ("debug", ["s.asm", "--minimal", "--command", "continue"])):
+            if os.path.exists(os.path.join(d, "pre.lc3")):
+                os.remove(os.path.join(d, "pre.lc3"))
+            rc_p, so_p, se_p = clicommon.run_cli(exe, pre + [sub] + tail, d)
+            runs += 1
+            obs[sub + " " + tail[0]] = rc_p
+            want_ok = bool(on)
+            good = (rc_p == 2) if on is None else ((rc_p == 0) == want_ok)
+            if not good:
+                bad += 1
+                if bad <= 6:
+                    violations.append({"kind": "flag-before-subcommand", "command_line": ["lace"] + pre + [sub] + tail, "exit": rc_p,
+                                       "feature_expected_on": on, "stderr": se_p.decode("utf-8", "replace")[-300:],
+                                       "note": "the same flag after the sub-command switches the extension on"})
     return {"runs": runs, "spellings": len(spellings), "mismatches": bad,
             "rule": "real binary: check / compile / run of an extension source, run of a source reaching a 0xD data word, and run (both `lace run FILE` and bare `lace FILE`) of the pre-assembled .lc3 / .obj IMAGES of both, for 17 ways of writing (or not writing, or miswriting) the feature list"}
 
